@@ -33,10 +33,12 @@ func eexec(intp *Interpreter) error {
 	s := intp.scanners[len(intp.scanners)-1]
 	err := s.BeginEexec(eexecN)
 	if err != nil {
+		intp.DictStack = intp.DictStack[:k]
 		return err
 	}
 	err = intp.executeScanner(s)
 	if err != nil && err != io.EOF {
+		intp.DictStack = intp.DictStack[:k]
 		return err
 	}
 	s.EndEexec()
